@@ -84,6 +84,11 @@ PROPS = {
         "quick": {"stages": [st("^TestC16", 800), st("^TestC16", 300, pkg="sqlite")]},
         "thorough": {"stages": [st("^TestC16", 6000, shards=10), st("^TestC16", 2000, shards=6, pkg="sqlite")]},
     },
+    "C07": {
+        "pkg": "handlers", "level": "exploration",
+        "quick": {"stages": [st("^TestC07Sequential", 600), st("^TestC07Concurrent", 600), st("^TestC07Backpressure", 150)]},
+        "thorough": {"stages": [st("^TestC07Sequential", 6000, shards=6), st("^TestC07Concurrent", 6000, shards=6), st("^TestC07Concurrent", 1500, shards=2, race=True), st("^TestC07Backpressure", 1000, shards=2)]},
+    },
     "C10": {
         "pkg": "core", "level": "exploration",
         "quick": {"stages": [st("^TestC10", 15000)]},
